@@ -16,7 +16,8 @@ RULE = (
     "payloads (missing, null, wrong kind, extra, mutated) x operation-name variants (right, none, "
     "unknown, ambiguous) are sent through graphql_blocking, process_graphql_query (generic executor), "
     "the thread-pool runtime and the asyncio runtime against worlds with ResolverError (with "
-    "extensions), nulls in non-null positions and non-finite floats; no call may raise, every result "
+    "extensions, a quarter of them carrying a resolver-supplied path), nulls in non-null positions and "
+    "non-finite numbers (floats, Decimals, strings, huge integers); no call may raise, every result "
     "must serialise to strict JSON with spec-shaped error entries whose locations lie inside the "
     "submitted text, data must be absent after parse / validation failures, extensions must pass "
     "through, and for executed requests the error paths must match the nulls the reference executor "
